@@ -48,7 +48,20 @@ func freeUDPPort() int {
 	return p
 }
 
+// the forwarder binds a port chosen a moment earlier; if another process took it meanwhile, try again
 func newGwWorld(noChecks bool, nsocks int) *gwWorld {
+	for attempt := 0; attempt < 8; attempt++ {
+		if w := tryGwWorld(noChecks, nsocks); w != nil {
+			return w
+		}
+		time.Sleep(50 * time.Millisecond)
+	}
+	fmt.Fprintln(os.Stderr, "forwarder did not start")
+	os.Exit(3)
+	return nil
+}
+
+func tryGwWorld(noChecks bool, nsocks int) *gwWorld {
 	dir, _ := os.MkdirTemp(scratchDir(), "verifgw")
 	st, err := storage.CreateStorage("file:" + dir + "/db.sqlite?_pragma=busy_timeout(20000)&_pragma=synchronous(off)")
 	if err != nil {
@@ -105,14 +118,13 @@ func newGwWorld(noChecks bool, nsocks int) *gwWorld {
 	}
 	w.barrier = mk()
 	// wait until the forwarder listens
-	for i := 0; i < 200; i++ {
+	for i := 0; i < 60; i++ {
 		if w.sync() {
 			return w
 		}
 		time.Sleep(5 * time.Millisecond)
 	}
-	fmt.Fprintln(os.Stderr, "forwarder did not start")
-	os.Exit(3)
+	w.close()
 	return nil
 }
 
